@@ -244,20 +244,32 @@ SyntaxVisitor::Action NameCataloger::visitAmbiguousExpressionOrDeclarationStatem
 {
     catalogNamesAsOfNode(node);
     auto expr = node->expressionStatement()->expression();
-    switch (expr->kind()) {
-        case SyntaxKind::MultiplyExpression: {
-            auto binExpr = expr->asBinaryExpression();
-            visit(binExpr->right());
-            break;
+    if (expr->kind() == SyntaxKind::MultiplyExpression) {
+        auto binExpr = expr->asBinaryExpression();
+        visit(binExpr->right());
+        return Action::Skip;
+    }
+    if (expr->kind() == SyntaxKind::CallExpression
+            && expr->asCallExpression()->arguments()
+            && !expr->asCallExpression()->arguments()->next
+            && expr->asCallExpression()->expression()->kind() == SyntaxKind::IdentifierName) {
+        auto callExpr = expr->asCallExpression();
+        visit(callExpr->arguments()->value);
+        return Action::Skip;
+    }
+
+    // The names the declaration would declare are, in the expression, those of objects
+    // or functions; what the other names are depends on which of the two the statement is.
+    auto decl = node->declarationStatement()->declaration();
+    PSY_ASSERT_2(decl->kind() == SyntaxKind::VariableAndOrFunctionDeclaration,
+                 return Action::Skip);
+    auto varDecl = decl->asVariableAndOrFunctionDeclaration();
+    for (auto iter = varDecl->declarators(); iter; iter = iter->next) {
+        auto decltor = SyntaxUtilities::innermostDeclaratorOf(iter->value);
+        if (decltor && decltor->kind() == SyntaxKind::IdentifierDeclarator) {
+            catalog_->catalogUseAsNonTypeName(
+                        decltor->asIdentifierDeclarator()->identifierToken().valueText());
         }
-        case SyntaxKind::CallExpression: {
-            auto callExpr = expr->asCallExpression();
-            visit(callExpr->arguments()->value);
-            break;
-        }
-        default:
-            PSY_ASSERT_1(false);
-            return Action::Quit;
     }
 
     return Action::Skip;
